@@ -17,6 +17,7 @@
    of the real App.Close must be accepted by `close_accepts`, which replays it with `step`. *)
 From Coq Require Import List Arith Bool Lia.
 From IocVerif Require Import Model.Conc Proofs.ConcProofs.
+From IocVerif Require Import Model.Merge Model.ConcMulti Proofs.MergeProofs Proofs.ConcMultiProofs.
 Import ListNotations.
 
 (* number of call_i / ret_i events in a trace, whoever executed them *)
@@ -93,6 +94,79 @@ Theorem c14_acceptor_sound : forall n fails h, close_accepts n fails h = true ->
   exists sched c tr, run (init (close_prog n fails)) sched = Some (c, tr) /\ obs_of tr = h
     /\ forall t, t <= n -> thr c t = [].
 Proof. exact close_accepts_sound. Qed.
+
+(* ---------- several calls of Close on one App, overlapping in any way ---------------------------------------
+
+   Model/ConcMulti.v: App.Close keeps its WaitGroup in a local variable and starts its own goroutines, so calls of
+   Close share nothing the phase writes; the model of any number of calls is the product of independent instances of
+   `close_prog n fails` (`mreach`: every interleaving of the steps of all calls; every call may begin at any time, so
+   one-after-the-other, nested and overlapping calls are all covered; `sel k tr` = what call k did).
+
+   EVERY call reaches every closer exactly once ITSELF and waits for ITS invocations: in any interleaving, for any
+   call k that has returned, closer i was called and returned exactly once BY CALL k, both before call k returned.
+   (So k overlapping calls give k invocations of every closer; a call never returns on the strength of another call's
+   invocations, and never skips its own because another call is in progress.) *)
+Theorem c14_overlapping_closes : forall n fails m tr,
+  mreach (close_prog n fails) m tr ->
+  forall k tr1 tr2, sel k tr = tr1 ++ (0, AEv OCloseRet) :: tr2 ->
+  forall i, 1 <= i <= n ->
+    (exists X Y Z, tr1 = X ++ (i, AEv (OCall i)) :: Y ++ (i, AEv (ORet i (fails i))) :: Z)
+    /\ calls i (sel k tr) = 1 /\ rets i (sel k tr) = 1.
+Proof.
+  intros n fails m tr Hm k tr1 tr2 Heq i Hi.
+  exact (c14_waits n fails (m k) (sel k tr) (mreach_sel _ m tr Hm k) tr1 tr2 Heq i Hi).
+Qed.
+
+(* no call invokes a closer twice, at any moment, whatever the other calls do *)
+Theorem c14_overlapping_at_most_once : forall n fails m tr,
+  mreach (close_prog n fails) m tr -> forall k i, 1 <= i <= n ->
+  calls i (sel k tr) <= 1 /\ rets i (sel k tr) <= 1.
+Proof.
+  intros n fails m tr Hm k i Hi. exact (c14_at_most_once n fails (m k) (sel k tr) (mreach_sel _ m tr Hm k) i Hi).
+Qed.
+
+(* no call is ever blocked by another call: unless call k has finished, some thread OF CALL k can take a step *)
+Theorem c14_overlapping_no_deadlock : forall n fails m tr,
+  mreach (close_prog n fails) m tr -> forall k,
+  (forall t, t <= n -> thr (m k) t = []) \/ exists t c' a, step (m k) t = Some (c', a).
+Proof.
+  intros n fails m tr Hm k. exact (c14_no_deadlock n fails (m k) (sel k tr) (mreach_sel _ m tr Hm k)).
+Qed.
+
+(* the acceptor of recorded histories of K overlapping calls (events attributed to calls, see Corr/Check_C14.v) is
+   EXACT: it accepts precisely the interleavings of K histories that the single-call acceptor accepts, each behind the
+   invocation of its call *)
+Theorem c14_overlap_acceptor_exact : forall K n fails h,
+  multi_accepts K n fails h = true <->
+  exists hs, length hs = K /\ Forall (fun ho => close_accepts n fails ho = true) hs /\ Merge (map wrap hs) h.
+Proof. exact multi_accepts_iff. Qed.
+
+(* ... and an accepted history (invocations left out) is, event for event in the same order, the observable projection
+   of a run of the product model in which every one of the K calls has finished - so c14_overlapping_closes applies to
+   what was observed of every call *)
+Theorem c14_overlap_acceptor_sound : forall K n fails h, multi_accepts K n fails h = true ->
+  exists sched m tr, mrun (minit (close_prog n fails)) sched = Some (m, tr) /\ mobs_of tr = strip h
+    /\ mreach (close_prog n fails) m tr
+    /\ forall k, k < K -> forall t, t <= n -> thr (m k) t = [].
+Proof.
+  intros K n fails h H. destruct (multi_accepts_product_run K n fails h H) as [sched [m [tr [Hr [Ho Hf]]]]].
+  exists sched, m, tr. split; [exact Hr|]. split; [exact Ho|]. split; [|exact Hf].
+  exact (mrun_mreach _ sched _ [] m tr (mreach_init _) Hr).
+Qed.
+
+(* non-vacuity: two overlapping calls on two closers, closer 2 fails; call 1 is invoked while closer 1 of call 0 is
+   still inside Close(); call 1 returns first.  Accepted; rejected: the second call returning at once without invoking
+   anything (a "Close is already in progress" guard), and a call returning while its own invocation of closer 1 runs *)
+Example c14_example_overlap :
+  let fails := fun i => Nat.eqb i 2 in
+  let c k o := (k, KObs o) in
+  multi_accepts 2 2 fails [(0, KInv); c 0 (OCall 1); c 0 (OCall 2); c 0 (ORet 2 true); (1, KInv); c 1 (OCall 2); c 1 (OCall 1);
+                           c 1 (ORet 2 true); c 1 (ORet 1 false); c 1 OCloseRet; c 0 (ORet 1 false); c 0 OCloseRet] = true
+  /\ multi_accepts 2 2 fails [(0, KInv); c 0 (OCall 1); c 0 (OCall 2); c 0 (ORet 2 true); (1, KInv); c 1 OCloseRet;
+                              c 0 (ORet 1 false); c 0 OCloseRet] = false
+  /\ multi_accepts 2 2 fails [(0, KInv); c 0 (OCall 1); c 0 (OCall 2); c 0 (ORet 2 true); (1, KInv); c 1 (OCall 2); c 1 (OCall 1);
+                              c 1 (ORet 2 true); c 1 OCloseRet; c 1 (ORet 1 false); c 0 (ORet 1 false); c 0 OCloseRet] = false.
+Proof. vm_compute. repeat split; reflexivity. Qed.
 
 (* non-vacuity: three closers, closer 2 fails; closer 1 stays blocked inside Close() while 2 and 3 are
    called and return; the schedule is accepted by `run`, Close returns last *)
